@@ -67,8 +67,10 @@ func hashStr(s string) uint64 {
 }
 
 // Note on memory: every QED balloon allocates a 1.15 GB BatchCache which the Go runtime
-// clears page by page; creating a balloon therefore costs 0.5-3 s of page faults. Checks
-// keep the number of balloons per run modest and bound the number alive at once.
+// clears page by page. In this VM a first-touch page fault costs 20-50 us and first-touch
+// throughput does not scale with threads (about 3 s per balloon machine-wide), while memory
+// the process already owns is re-used ~100x cheaper. Checks therefore build few balloons at
+// a time (2 workers): the allocator then keeps re-using the same two regions.
 
 // ---------- known findings ----------
 
